@@ -22,7 +22,7 @@ for pid in PROPS:
 na = [{"property_id": p, "reason": "check not built yet in this round; see DESIGN.md section 4 for the planned theorems"} for p in PROPS if p not in CLAIMED]
 m = {
     "version": 1,
-    "setup_cmd": "/venv/bin/python harness/translate_hc.py --write && /venv/bin/python harness/translate_wiring.py --write && cd lean && lake build",
+    "setup_cmd": "/venv/bin/python harness/translate_all.py --write && cd lean && lake build",
     "hooks": {
         "guard": "PYOMA2_VERIF",
         "enable": "no source hooks are needed: the checks import pyoma2 from /repo/src in-process",
